@@ -210,6 +210,9 @@ func (w *World) checkMintLimits(amount uint64, err error) {
 	}
 }
 
+// WaitSubscribed waits until the background watcher of a freshly created mint quote has subscribed.
+func (w *World) WaitSubscribed(hash string) { w.waitSubscribed(hash) }
+
 func (w *World) waitSubscribed(hash string) {
 	deadline := time.Now().Add(3 * time.Second)
 	for w.Net.Subscribers(hash) == 0 && time.Now().Before(deadline) {
